@@ -25,6 +25,8 @@ structure Obj where
   items : List String := []          -- select: its non-entity items; entity: the types of its attributes (one aggregate level stripped)
   entAttrTypes : List String := []   -- select: attribute types of its not yet processed entity items
   descendants : List String := []    -- entity: all its subtypes, transitively (`markDescs`)
+  supers : List String := []         -- entity: its direct supertypes
+  foreign : Bool := false            -- declared in ANOTHER schema (`!sameSchema` / `!inSchema`): reached through USE/REFERENCE
   deriving Repr
 
 abbrev Marks := String → Mark
@@ -33,8 +35,12 @@ def setMark (m : Marks) (n : String) (v : Mark) : Marks := fun k => if k = n the
 
 def lookup (os : List Obj) (n : String) : Option Obj := os.find? (fun o => o.name == n)
 
-/-- `ENUMcanBeProcessed( e, s )` for `e` in `s` -/
+def isForeign (os : List Obj) (n : String) : Bool := (lookup os n).any (·.foreign)
+
+/-- `ENUMcanBeProcessed( e, s )`: for an enumeration of another schema `e->search_id == PROCESSED`, otherwise by its mark
+    (last case regenerated) -/
 def enumCanBeProcessed (lc : EnumLastCase) (os : List Obj) (m : Marks) (e : String) : Bool :=
+  if isForeign os e then m e == .processed else
   match m e with
   | .notknown =>
     match (lookup os e).bind (·.renameOf) with
@@ -65,6 +71,13 @@ def checkItem (lc : EnumLastCase) (os : List Obj) (s : St) (parent item : String
            unknown := if s.marks parent = .notknown then s.unknown - 1 else s.unknown }, true)
       else (s, false)
     else if o.isSelect && !noSel then
+      if o.foreign then
+        -- `!sameSchema( i, parent )`: a select of another schema must have been PROCESSED already
+        if s.marks item ≠ .processed then
+          ({ marks := setMark s.marks parent .cantprocess, schemaUnprocessed := true,
+             unknown := if s.marks parent = .notknown then s.unknown - 1 else s.unknown }, true)
+        else (s, false)
+      else
       match s.marks item with
       | .cantprocess => ({ marks := setMark s.marks parent .cantprocess, schemaUnprocessed := true,
                            unknown := if s.marks parent = .notknown then s.unknown - 1 else s.unknown }, true)
@@ -85,9 +98,20 @@ def checkItems (lc : EnumLastCase) (os : List Obj) (parent : String) (noSel : Bo
 def markDescs (s : St) (o : Obj) : St :=
   { s with marks := (o.name :: o.descendants).foldl (fun m n => setMark m n .cantprocess) s.marks }
 
-/-- one object visited by `checkTypes` (types) / `checkEnts` (entities) -/
+/-- a renamed enumeration/select whose original, or an entity one of whose supertypes, is declared in another schema and
+    has not been PROCESSED yet (`!sameSchema( i, type ) && i->search_id != PROCESSED`, `!sameSchema( ent, super ) && …`) -/
+def foreignBlocked (os : List Obj) (m : Marks) (o : Obj) : Bool :=
+  (o.renameOf.toList ++ o.supers).any fun n => isForeign os n && m n != .processed
+
+/-- one object visited by `checkTypes` (types) / `checkEnts` (entities).  (In the C the foreign-original test of a renamed
+    select comes after its items and only fires while the select is still CANPROCESS; here it comes first — the verdict
+    CANTPROCESS and the pass decision are the same.) -/
 def visit (lc : EnumLastCase) (os : List Obj) (s : St) (o : Obj) : St :=
   if s.marks o.name ≠ .notknown then s else
+  if foreignBlocked os s.marks o then
+    (if o.isSelect || o.isEnum then { s with marks := setMark s.marks o.name .cantprocess, schemaUnprocessed := true }
+     else { markDescs s o with schemaUnprocessed := true })
+  else
   let s1 : St := { s with marks := setMark s.marks o.name .canprocess }
   let (s2, stop) := checkItems lc os o.name false s1 o.items
   if stop then (if o.isSelect || o.isEnum then s2 else markDescs s2 o)
@@ -129,11 +153,69 @@ def iterate (l : SweepLoop) (lc : EnumLastCase) (os order : List Obj) (ls : Loop
     if 0 < s'.unknown ∧ s'.unknown = ls.last then { st := markRemaining order s', last := ls.last, exited := true }
     else { st := s', last := s'.unknown, exited := decide (s'.unknown ≤ 0) }
 
-def run (l : SweepLoop) (lc : EnumLastCase) (os order : List Obj) : Nat → LoopSt
-  | 0 => { st := initial }
-  | k + 1 => iterate l lc os order (run l lc os order k) (k + 1)
+/-- the loop started in pass state `s0` (marks of the schema's own objects NOTKNOWN, of foreign ones whatever the
+    schemas printed so far left) -/
+def runFrom (l : SweepLoop) (lc : EnumLastCase) (os order : List Obj) (s0 : St) : Nat → LoopSt
+  | 0 => { st := s0 }
+  | k + 1 => iterate l lc os order (runFrom l lc os order s0 k) (k + 1)
+
+/-- … for a self-contained schema: everything NOTKNOWN -/
+def run (l : SweepLoop) (lc : EnumLastCase) (os order : List Obj) (k : Nat) : LoopSt := runFrom l lc os order initial k
 
 /-- nothing is left undecided: every object of the sweep order was given a verdict -/
 def Settled (order : List Obj) (s : St) : Prop := ∀ o ∈ order, s.marks o.name ≠ .notknown
+
+/-! ## the whole file: `print_schemas_separate` -/
+
+/-- a schema as the pass logic sees it: its own types (in DICTdo order), its own entities (in DICTdo order), and stubs
+    (`foreign := true`) for the objects of other schemas it refers to.  Names are qualified (`schema.name`), so that one
+    global mark function serves all schemas. -/
+structure PSchema where
+  name : String
+  types : List Obj
+  ents : List Obj
+  stubs : List Obj := []
+  deriving Repr
+
+def PSchema.os (p : PSchema) : List Obj := p.types ++ p.ents ++ p.stubs
+def PSchema.own (p : PSchema) : List Obj := p.types ++ p.ents
+
+structure FileSt where
+  marks : Marks
+  unprocessed : String → Bool          -- schema->search_id == UNPROCESSED
+  counter : String → Nat               -- *( int * )schema->clientData
+  printed : List (String × Nat)        -- SCHEMAprint( schema, …, suffix ) calls, in order
+  hung : Bool := false                 -- a sweep loop did not finish within its fuel
+
+/-- one visit of a schema that is still UNPROCESSED (`unsetObjs`, `checkTypes` with its sweep loop, `checkEnts`, the
+    `SCHEMAprint` decision, and — through SCOPEPrint — CANPROCESS objects becoming PROCESSED) -/
+def visitSchema (l : SweepLoop) (lc : EnumLastCase) (fs : FileSt) (p : PSchema) : FileSt :=
+  if !fs.unprocessed p.name || fs.hung then fs else
+  let isOwn (n : String) : Bool := p.own.any (fun o => o.name == n)
+  let m0 : Marks := fun n => if isOwn n && fs.marks n == .cantprocess then .notknown else fs.marks n      -- unsetObjs
+  let loop := runFrom l lc p.os p.types { marks := m0, schemaUnprocessed := false } (p.types.length + 2)
+  if !loop.exited then { fs with hung := true } else
+  let s := sweep lc p.os p.ents loop.st                                                                     -- checkEnts
+  let any := p.own.any fun o => s.marks o.name == .canprocess                                               -- val1 || val2
+  let suffix := if s.schemaUnprocessed || fs.counter p.name > 0 then fs.counter p.name + 1 else 0
+  { marks := fun n => if any && isOwn n && s.marks n == .canprocess then .processed else s.marks n,
+    unprocessed := fun n => if n = p.name then s.schemaUnprocessed else fs.unprocessed n,
+    counter := fun n => if n = p.name ∧ any ∧ suffix > 0 then suffix else fs.counter n,
+    printed := if any then fs.printed ++ [(p.name, suffix)] else fs.printed }
+
+/-- one round of `while( !complete )`: every schema in DICTdo order -/
+def round (l : SweepLoop) (lc : EnumLastCase) (schemas : List PSchema) (fs : FileSt) : FileSt :=
+  schemas.foldl (visitSchema l lc) fs
+
+def rounds (l : SweepLoop) (lc : EnumLastCase) (schemas : List PSchema) : Nat → FileSt → FileSt
+  | 0, fs => fs
+  | n + 1, fs => if schemas.any (fun p => fs.unprocessed p.name) && !fs.hung then rounds l lc schemas n (round l lc schemas fs) else fs
+
+def fileStart : FileSt :=
+  { marks := fun _ => .notknown, unprocessed := fun _ => true, counter := fun _ => 0, printed := [] }
+
+/-- the `SCHEMAprint` calls exp2cxx makes for a file (fuel = number of rounds allowed) -/
+def printFile (l : SweepLoop) (lc : EnumLastCase) (schemas : List PSchema) (fuel : Nat) : FileSt :=
+  rounds l lc schemas fuel fileStart
 
 end StepModel.GenFiles.Pass
